@@ -240,6 +240,9 @@ func genProgram(r *hk.Rand) *program {
 			default:
 				f.Kind = "osfile" // SetFileReader(*os.File)
 			}
+			if (f.Kind == "reader" || f.Kind == "buffer" || f.Kind == "seekcloser" || f.Kind == "osfile") && r.Chance(40) {
+				f.Skip = hk.Pick(r, []int{1, 4, 9})
+			}
 			sh.MPFiles = append(sh.MPFiles, f)
 		}
 		if r.Chance(50) {
@@ -410,7 +413,11 @@ func genUploadProgram(r *hk.Rand) *program {
 		if r.Chance(50) {
 			k = hk.Pick(r, kinds[:5]) // replayable kinds more often, so that all attempts happen
 		}
-		sh.MPFiles = append(sh.MPFiles, mpFile{Param: hk.Pick(r, []string{"file", "doc", "img"}), Name: hk.Pick(r, []string{"a.txt", "b.bin"}), Content: hk.Pick(r, bodies), Kind: k})
+		f := mpFile{Param: hk.Pick(r, []string{"file", "doc", "img"}), Name: hk.Pick(r, []string{"a.txt", "b.bin"}), Content: hk.Pick(r, bodies), Kind: k}
+		if (k == "reader" || k == "buffer" || k == "seekcloser" || k == "osfile") && r.Chance(40) {
+			f.Skip = hk.Pick(r, []int{1, 4, 9})
+		}
+		sh.MPFiles = append(sh.MPFiles, f)
 	}
 	p.Script = nil
 	fails := r.Range(1, 3)
